@@ -76,8 +76,12 @@ type wal struct {
 
 	// The last offset synced in the Wal.
 	lastSyncedOffset atomic.Int64
-	// Number of times the log was truncated or cleared (protected by the mutex)
-	truncations int64
+	// Number of times the log was truncated or cleared. It is only incremented while holding
+	// syncPublishMutex, which the sync loop takes to publish the synced offset. That mutex is never
+	// held across a blocking operation: the wal mutex cannot be used there, since appenders send
+	// their sync requests while holding it
+	truncations      atomic.Int64
+	syncPublishMutex sync.Mutex
 
 	ctx          context.Context
 	cancel       context.CancelFunc
@@ -391,10 +395,12 @@ func (t *wal) runSync() {
 		// Clear all the other requests in the channel
 		callbacks = t.drainSyncRequestsChannel(callbacks)
 
+		// Read before the offset: a truncation in between is then noticed below
+		truncations := t.truncations.Load()
+
 		t.Lock()
 		segment := t.currentSegment
 		lastAppendedOffset := t.lastAppendedOffset.Load()
-		truncations := t.truncations
 		t.Unlock()
 
 		var err error
@@ -407,11 +413,11 @@ func (t *wal) runSync() {
 				// If the log was truncated or cleared while the flush was in progress, the
 				// entries that were flushed might not be there anymore: the truncation has
 				// already set the synced offset
-				t.Lock()
-				if t.truncations == truncations {
+				t.syncPublishMutex.Lock()
+				if t.truncations.Load() == truncations {
 					t.lastSyncedOffset.Store(lastAppendedOffset)
 				}
-				t.Unlock()
+				t.syncPublishMutex.Unlock()
 			}
 		}
 
@@ -459,11 +465,18 @@ func (t *wal) checkNextOffset(nextOffset int64) error {
 	return nil
 }
 
+// noteTruncation makes a sync that is in progress not publish the offset it has read before.
+func (t *wal) noteTruncation() {
+	t.syncPublishMutex.Lock()
+	t.truncations.Add(1)
+	t.syncPublishMutex.Unlock()
+}
+
 func (t *wal) Clear() error {
 	t.Lock()
 	defer t.Unlock()
 
-	t.truncations++
+	t.noteTruncation()
 
 	err := multierr.Combine(
 		t.currentSegment.Close(),
@@ -518,7 +531,7 @@ func (t *wal) TruncateLog(lastSafeOffset int64) (int64, error) { //nolint:revive
 	t.Lock()
 	defer t.Unlock()
 
-	t.truncations++
+	t.noteTruncation()
 
 	lastIndex := t.lastAppendedOffset.Load()
 	if lastIndex == InvalidOffset {
